@@ -214,7 +214,7 @@ func authenticateOrigin(r *http.Request, originHosts []string) error {
 		return fmt.Errorf("failed to parse Origin header %q: %w", origin, err)
 	}
 
-	if strings.EqualFold(r.Host, u.Host) {
+	if asciiEqualFold(r.Host, u.Host) {
 		return nil
 	}
 
@@ -234,7 +234,7 @@ func authenticateOrigin(r *http.Request, originHosts []string) error {
 }
 
 func match(pattern, s string) (bool, error) {
-	return filepath.Match(strings.ToLower(pattern), strings.ToLower(s))
+	return filepath.Match(asciiLower(pattern), asciiLower(s))
 }
 
 func selectSubprotocol(r *http.Request, subprotocols []string) string {
@@ -302,11 +302,30 @@ func acceptDeflate(ext websocketExtension, mode CompressionMode) (*compressionOp
 
 func headerContainsTokenIgnoreCase(h http.Header, key, token string) bool {
 	for _, t := range headerTokens(h, key) {
-		if strings.EqualFold(t, token) {
+		if asciiEqualFold(t, token) {
 			return true
 		}
 	}
 	return false
+}
+
+// asciiLower and asciiEqualFold fold the 26 ASCII letters only. HTTP tokens and
+// host names are case-insensitive in ASCII; under the Unicode folding of
+// strings.ToLower and strings.EqualFold "web\u017focket" would name the websocket
+// protocol and a host spelled with U+212A KELVIN SIGN would equal one spelled
+// with k.
+func asciiLower(s string) string {
+	b := []byte(s)
+	for i, c := range b {
+		if 'A' <= c && c <= 'Z' {
+			b[i] = c + 'a' - 'A'
+		}
+	}
+	return string(b)
+}
+
+func asciiEqualFold(a, b string) bool {
+	return asciiLower(a) == asciiLower(b)
 }
 
 type websocketExtension struct {
